@@ -2,11 +2,14 @@
 //   drv_c05 freeze <dir> <seed> <n>     (run ONCE, by hand, to create /verif/corpus; never part of a check)
 //   drv_c05 freeze-big <dir> <seed>     (run ONCE, by hand, to create /verif/corpus_big: size-covering streams, see run_freeze_big)
 //   drv_c05 freeze-bounds <dir> <seed>  (run ONCE, by hand: streams on the representation boundaries, appended to /verif/corpus_big)
+//   drv_c05 freeze-handles <dir> <seed> <n>  (run ONCE, by hand: Edgebreaker streams with two topology-split events at one symbol, appended to /verif/corpus_big)
+//   drv_c05 freeze-skip <dir>           (run ONCE per corpus directory, by hand: digests of the decodes with the attribute transform skipped)
 //   drv_c05 check  <dir> <testdata>     decode every frozen stream and every testdata/*.drc; one "Frozen" record per stream
 //   drv_c05 versions <dir>              rewrite the header version of a subset of streams to every (major, minor) in 0..3 x 0..5
 #include <dirent.h>
 #include <fstream>
 #include "geom.h"
+#include "draco/core/varint_decoding.h"
 using namespace draco;
 using namespace vg;
 static vrt::Out out;
@@ -171,6 +174,40 @@ static int run_freeze_bounds(const std::string &dir, uint64_t seed) {
   return 0;
 }
 
+// Streams whose Edgebreaker traversal closes several handle / hole loops: wrapped grids with removed quads (GenParams::handles).  Kept: streams
+// in which ONE symbol is the source of two topology-split events (read from the stream's own event table), and a few with three or more events.
+static int run_freeze_handles(const std::string &dir, uint64_t seed, long want) {
+  vrt::Rng r(seed);
+  std::ofstream idx(dir + "/index.ndjson", std::ios::app);
+  GenParams gp; gp.handles = true; gp.max_points = 40; gp.max_faces = 80;
+  long k = 0, doubles = 0, many = 0;
+  for (long i = 0; i < 400000 && doubles < want; ++i) {
+    Geom g = gen_geometry(r, true, gp);
+    Opt o = gen_options(r, g);
+    o.method = 1; o.expert = true; o.es = o.ds = (int)(i % 10);
+    Encoded e = encode(g, o);
+    if (!e.ok || e.bytes.size() > 6000 || e.bytes.size() < 20 || e.bytes[8] != 1) continue;
+    DecoderBuffer db; db.Init(e.bytes.data(), e.bytes.size()); db.set_bitstream_version(0x0202);
+    db.Advance(11);
+    uint8_t trav = 0, nattr = 0; uint32_t nv = 0, nf = 0, nsym = 0, nss = 0, nev = 0;
+    db.Decode(&trav); DecodeVarint(&nv, &db); DecodeVarint(&nf, &db); db.Decode(&nattr); DecodeVarint(&nsym, &db); DecodeVarint(&nss, &db); DecodeVarint(&nev, &db);
+    if (nev < 2 || nev > 64) continue;
+    bool dbl = false; uint32_t last = 0;
+    for (uint32_t j = 0; j < nev; ++j) { uint32_t d1 = 0, d2 = 0; DecodeVarint(&d1, &db); DecodeVarint(&d2, &db); if (j > 0 && d1 == 0) dbl = true; last += d1; }
+    if (!dbl && !(nev >= 3 && many < want / 3)) continue;
+    Decoded d = decode(e.bytes.data(), e.bytes.size());
+    if (!d.ok) continue;
+    if (dbl) ++doubles; else ++many;
+    char name[64]; snprintf(name, sizeof name, "h%04ld.drc", k++);
+    std::ofstream f(dir + "/" + name, std::ios::binary); f.write(e.bytes.data(), e.bytes.size());
+    idx << "{\"file\":\"" << name << "\",\"digest\":" << h64(geom_digest(*d.pc, d.is_mesh)) << ",\"np\":" << d.pc->num_points() << ",\"nf\":" << d.mesh()->num_faces()
+        << ",\"gt\":\"mesh\",\"method\":1,\"es\":" << o.es << ",\"pred\":" << o.pred << ",\"builtin\":" << (o.builtin ? "true" : "false")
+        << ",\"what\":\"handles: " << nev << " split events" << (dbl ? ", two at one symbol" : "") << "\",\"bytes\":" << e.bytes.size() << "}\n";
+  }
+  fprintf(stderr, "froze %ld streams (%ld with two events at one symbol)\n", k, doubles);
+  return 0;
+}
+
 static void check_one(const std::string &label, const std::vector<char> &bytes, const vrt::J *frozen) {
   Decoded d = decode(bytes.data(), bytes.size());
   const uint64_t h = d.ok ? geom_digest(*d.pc, d.is_mesh) : 0;
@@ -180,14 +217,72 @@ static void check_one(const std::string &label, const std::vector<char> &bytes, 
   out.i("np", d.ok ? d.pc->num_points() : -1).i("nf", d.ok && d.is_mesh ? d.mesh()->num_faces() : (d.ok ? 0 : -1)).end();
 }
 
-static int run_check(const std::string &dir) {
+// second pass: the same streams through ONE Decoder and ONE DecoderBuffer object, re-initialised for every stream, in corpus order (versions 1.1 .. 2.3
+// interleaved): what a stream decodes to does not depend on which stream the objects decoded before
+static void check_reused(const std::string &label, const std::vector<char> &bytes, const vrt::J &frozen, Decoder *dec, DecoderBuffer *db) {
+  db->Init(bytes.data(), bytes.size());
+  auto t = Decoder::GetEncodedGeometryType(db);
+  bool ok = false; uint64_t h = 0; long np = -1, nf = -1; int code = 0;
+  if (t.ok()) {
+    db->Init(bytes.data(), bytes.size());
+    if (t.value() == TRIANGULAR_MESH) { Mesh m; Status st = dec->DecodeBufferToGeometry(db, &m); ok = st.ok(); code = st.code(); if (ok) { h = geom_digest(m, true); np = m.num_points(); nf = m.num_faces(); } }
+    else { PointCloud p; Status st = dec->DecodeBufferToGeometry(db, &p); ok = st.ok(); code = st.code(); if (ok) { h = geom_digest(p, false); np = p.num_points(); nf = 0; } }
+  }
+  out.begin("Frozen").s("file", label + " (reused objects)").i("ver", bytes.size() > 6 ? ((unsigned char)bytes[5]) * 256 + (unsigned char)bytes[6] : -1).b("ok", ok).i("code", code).raw("now", h64(h))
+      .arr("frozen", frozen["digest"].ints()).i("np_frozen", frozen["np"].n).i("nf_frozen", frozen["nf"].n).b("has_frozen", true).i("np", np).i("nf", nf).end();
+}
+// Decodes under decoder options: every stream also with the attribute transform skipped for POSITION only and for every type; the ordered digests of
+// these decodes are frozen in index_skip.ndjson (written once by freeze-skip, never by a check).
+static const std::vector<std::vector<GeometryAttribute::Type>> kSkipSets = {
+    {GeometryAttribute::POSITION}, {GeometryAttribute::POSITION, GeometryAttribute::NORMAL, GeometryAttribute::COLOR, GeometryAttribute::TEX_COORD, GeometryAttribute::GENERIC}};
+static int run_freeze_skip(const std::string &dir) {
   std::ifstream idx(dir + "/index.ndjson");
+  std::ofstream os(dir + "/index_skip.ndjson", std::ios::app);
+  std::string line; long n = 0;
+  while (std::getline(idx, line)) {
+    if (line.empty()) continue;
+    vrt::J j = vrt::jparse_line(line);
+    const std::vector<char> b = slurp(dir + "/" + j["file"].s);
+    for (size_t k = 0; k < kSkipSets.size(); ++k) {
+      Decoded d = decode(b.data(), b.size(), kSkipSets[k]);
+      os << "{\"file\":\"" << j["file"].s << "\",\"skipset\":" << k << ",\"ok\":" << (d.ok ? "true" : "false") << ",\"digest\":" << h64(d.ok ? geom_digest(*d.pc, d.is_mesh) : 0)
+         << ",\"np\":" << (d.ok ? (long)d.pc->num_points() : -1) << ",\"nf\":" << (d.ok && d.is_mesh ? (long)d.mesh()->num_faces() : (d.ok ? 0 : -1)) << "}\n";
+      ++n;
+    }
+  }
+  fprintf(stderr, "froze %ld skip-transform digests\n", n);
+  return 0;
+}
+static void check_skip(const std::string &dir) {
+  std::ifstream idx(dir + "/index_skip.ndjson");
   std::string line;
   while (std::getline(idx, line)) {
     if (line.empty()) continue;
     vrt::J j = vrt::jparse_line(line);
-    check_one(j["file"].s, slurp(dir + "/" + j["file"].s), &j);
+    const std::vector<char> b = slurp(dir + "/" + j["file"].s);
+    const size_t k = (size_t)j["skipset"].n;
+    if (k >= kSkipSets.size()) continue;
+    Decoded d = decode(b.data(), b.size(), kSkipSets[k]);
+    const uint64_t h = d.ok ? geom_digest(*d.pc, d.is_mesh) : 0;
+    // a stream that did not decode under the option when it was frozen must still not decode (ok = frozen ok is part of the digest comparison: 0 digest)
+    out.begin("Frozen").s("file", j["file"].s + (k == 0 ? " (skip POSITION)" : " (skip all)")).i("ver", b.size() > 6 ? ((unsigned char)b[5]) * 256 + (unsigned char)b[6] : -1)
+        .b("ok", d.ok || !j["ok"].n).i("code", d.code).raw("now", h64(h)).arr("frozen", j["digest"].ints()).i("np_frozen", j["np"].n).i("nf_frozen", j["nf"].n).b("has_frozen", true)
+        .i("np", d.ok ? (long)d.pc->num_points() : -1).i("nf", d.ok && d.is_mesh ? (long)d.mesh()->num_faces() : (d.ok ? 0 : -1)).end();
   }
+}
+
+static int run_check(const std::string &dir) {
+  std::ifstream idx(dir + "/index.ndjson");
+  std::string line;
+  Decoder reused_dec; DecoderBuffer reused_db;
+  while (std::getline(idx, line)) {
+    if (line.empty()) continue;
+    vrt::J j = vrt::jparse_line(line);
+    const std::vector<char> bytes = slurp(dir + "/" + j["file"].s);
+    check_one(j["file"].s, bytes, &j);
+    check_reused(j["file"].s, bytes, j, &reused_dec, &reused_db);
+  }
+  check_skip(dir);
   return 0;
 }
 
@@ -222,7 +317,9 @@ static int run_versions(const std::string &dir) {
 int main(int argc, char **argv) {
   if (argc >= 5 && !strcmp(argv[1], "freeze")) return run_freeze(argv[2], strtoull(argv[3], 0, 10), atol(argv[4]), argc >= 6 ? argv[5] : "g", argc >= 7 ? atoi(argv[6]) : -1);
   if (argc >= 4 && !strcmp(argv[1], "freeze-big")) return run_freeze_big(argv[2], strtoull(argv[3], 0, 10));
+  if (argc >= 5 && !strcmp(argv[1], "freeze-handles")) return run_freeze_handles(argv[2], strtoull(argv[3], 0, 10), atol(argv[4]));
   if (argc >= 4 && !strcmp(argv[1], "freeze-bounds")) return run_freeze_bounds(argv[2], strtoull(argv[3], 0, 10));
+  if (argc >= 3 && !strcmp(argv[1], "freeze-skip")) return run_freeze_skip(argv[2]);
   if (argc >= 3 && !strcmp(argv[1], "check")) return run_check(argv[2]);
   if (argc >= 3 && !strcmp(argv[1], "digest")) { check_one(argv[2], slurp(argv[2]), nullptr); return 0; }
   if (argc >= 3 && !strcmp(argv[1], "versions")) return run_versions(argv[2]);
